@@ -37,22 +37,26 @@ def Pred.evalN : Pred → Nat → Bool
   | .isAlpha, n => (0x61 ≤ n && n ≤ 0x7a) || (0x41 ≤ n && n ≤ 0x5a)
 
 /-- what one alternative of a condition says about a byte: `c == 'x'` (the value of `'x'`),
-`c == quote`, `isSpace(c)` -/
+`c == quote`, `isSpace(c)`, `c < 0x80` -/
 inductive Atom
   | byte (b : Nat)
   | quote
   | pred (p : Pred)
+  /-- `c < n` -/
+  | lt (n : Nat)
   deriving DecidableEq, Repr
 
 def Atom.eval (q : UInt8) (c : UInt8) : Atom → Bool
   | .byte b => c.toNat == b
   | .quote => c == q
   | .pred p => p.eval c
+  | .lt n => decide (c.toNat < n)
 
 def Atom.evalN (q : Nat) (c : Nat) : Atom → Bool
   | .byte b => c == b
   | .quote => c == q
   | .pred p => p.evalN c
+  | .lt n => decide (c < n)
 
 /-- a literal of a guard: the byte at `p + off` satisfies one of the alternatives (`pos`) or none
 of them; `p + off < len(l.src)` -/
@@ -135,6 +139,7 @@ def Atom.val? (q : Nat) : Atom → Option Nat
   | .byte b => some b
   | .quote => some q
   | .pred _ => none
+  | .lt _ => none
 
 def vals? (q : Nat) : List Atom → Option (List Nat)
   | [] => some []
